@@ -58,19 +58,24 @@ Theorem C04_merge_test_not_passed : forall mg ps d,
 Proof. exact run_del_mg_no_hit. Qed.
 Print Assumptions C04_merge_test_not_passed.
 
-(* Deleting the document root is refused with a YAML Path error and changes
-   nothing (the root coordinate is the one the loop meets first). *)
-Theorem C04_root_refused : forall cs r rest d,
-  del_plan d cs = mkpc None r :: rest ->
+(* THE FULL ROOT CLAUSE.  Deleting the document root is refused with a YAML Path
+   error and changes nothing - wherever the root coordinate stands among the
+   gathered ones, however deep in Collector results, and whatever else was
+   gathered (since fix 1c243db the refusal comes before anything is deleted;
+   before, this held only when the root was the coordinate the loop met first:
+   known finding F15b). *)
+Theorem C04_root_refused : forall cs d,
+  In None (map pc_parent (leaf_coords cs)) ->
   delete_nodes cs d = Failed d (YPE NoDocument).
 Proof. exact root_refused. Qed.
 Print Assumptions C04_root_refused.
 
-(* ...and whatever else was gathered, a root coordinate never lets a delete complete. *)
-Theorem C04_root_never_deleted : forall ps d,
-  In None (map pc_parent ps) -> exists d' e, run_del ps d = Failed d' e.
-Proof. exact run_del_root_fails. Qed.
-Print Assumptions C04_root_never_deleted.
+(* ... also in a document whose mappings carry merge keys *)
+Theorem C04_root_refused_merge_keys : forall mg cs d,
+  In None (map pc_parent (leaf_coords cs)) ->
+  delete_nodes_mg mg cs d = Failed d (YPE NoDocument).
+Proof. exact root_refused_mg. Qed.
+Print Assumptions C04_root_refused_merge_keys.
 
 (* ---- concrete documents ---- *)
 Definition pl (o : N) : info := mkinfo o None false None.
@@ -131,8 +136,9 @@ Example C04_merge_test_nonvacuous :
 Proof. vm_compute. repeat split. Qed.
 
 Example C04_root_nonvacuous :
-  del_plan doc1 [CNode (mkpc None PNone) false] = [mkpc None PNone].
-Proof. reflexivity. Qed.
+  In None (map pc_parent (leaf_coords [CNode (mkpc None PNone) false])) /\
+  delete_nodes [CNode (mkpc None PNone) false] doc1 = Failed doc1 (YPE NoDocument).
+Proof. vm_compute. auto. Qed.
 
 (* ---- former known finding F15, repaired by fix 17f9ea8: the witnesses of the
    former C04_delete_exact_refuted now satisfy the full theorem ----
@@ -159,18 +165,15 @@ Example C04_disorder_repaired :
   = MDone (NMap (ct 0) [ (sk 1 "a", NSeq (ct 2) [iv 4 2; iv 6 4]) ]).
 Proof. vm_compute. repeat split. Qed.
 
-(* known finding F_rootmix: `(b)+(/)`-style gathers delete b before refusing the root *)
-Theorem C04_root_mixed_refuted : exists d cs d',
-  In None (map pc_parent (leaf_coords cs)) /\
-  delete_nodes cs d = Failed d' (YPE NoDocument) /\ d' <> d.
-Proof.
-  exists doc1, [CList [CNode (mkpc None PNone) false; plain 0 (PStr "b")] (mkpc None PNone) false].
-  eexists. split; [|split].
-  - vm_compute. auto.
-  - vm_compute. reflexivity.
-  - discriminate.
-Qed.
-Print Assumptions C04_root_mixed_refuted.
+(* former known finding F15b, repaired by fix 1c243db: `(/)+(b)` and `(b)+(/)` gathers are refused with the
+   document unchanged (the old loop deleted b before refusing: the former C04_root_mixed_refuted witness) *)
+Example C04_root_mixed_repaired :
+  In None (map pc_parent (leaf_coords [CList [CNode (mkpc None PNone) false; plain 0 (PStr "b")] (mkpc None PNone) false])) /\
+  delete_nodes [CList [CNode (mkpc None PNone) false; plain 0 (PStr "b")] (mkpc None PNone) false] doc1
+  = Failed doc1 (YPE NoDocument) /\
+  delete_nodes [CList [plain 0 (PStr "b"); plain 2 (PInt 0); CNode (mkpc None PNone) false] (mkpc None PNone) false] doc1
+  = Failed doc1 (YPE NoDocument).
+Proof. vm_compute. auto. Qed.
 
 (* ======================================================================== *)
 (* END TO END: the coordinates are the ones the read-side model gathers.
